@@ -441,6 +441,21 @@ def run(ctx):
     big_jobs = [(paths, bins, reverse, kind) for paths in big_layouts(ctx)
                 for bins in (3, 6, 10, 13) for reverse in (False, True)
                 for kind in ("up", "down", "stride")]
+    # paths so short that their squared length underflows to zero although their ends differ
+    # (2^-538 units long; squared distances of 2^-531-unit queries are subnormal but distinct):
+    # "start equals end" decided by a squared distance is wrong for them
+    unit = 2.0 ** -535
+    for short in ((((0.0, 0.0), (unit / 8, 0.0)), ((64 * unit, 64 * unit), (80 * unit, 64 * unit))),
+                  (((64 * unit, 64 * unit), (80 * unit, 64 * unit)), ((5 * unit, 5 * unit), (5 * unit, 5 * unit + unit / 8))),
+                  (((0.0, 0.0), (0.0, unit / 16)),)):
+        base = short[0][0] if short[0][0][0] < 32 * unit else short[1][0]
+        queries = [(base[0] + 16 * unit, base[1]), (base[0], base[1] + 16 * unit),
+                   (base[0] - 16 * unit, base[1] - 16 * unit), (base[0] + unit / 16, base[1]),
+                   (72 * unit, 64 * unit)]
+        for bins in (1, 2, 3):
+            for reverse in (False, True):
+                explore_index(short, bins, reverse, queries, part)
+                part.count("underflow_path_indexes")
     # very fine grids (hundreds of cells per side: a plot of thousands of short strokes) on a
     # wide flat document and on a square one - cell numbers of five and six digits, any cap or
     # table sized for "reasonable" grids; queried next to every end
